@@ -4,13 +4,18 @@ Spec: LSProtocol.tla (invariant Converged under Quiescent, NoInvention, LSNeverB
 shadow mode, 2 instances exhaustively and 3 instances / 2 keys by simulation.  Binding (R): TLC
 behaviours are replayed through real Syncer objects (SendOnce / LoadOnce on real LMDBs and a memory
 bucket); after every step the projected real state must equal the specification state; a drain phase
-then checks identity of all instances and equality with an independent LWW reference.
+then checks identity of all instances and equality with an independent LWW reference.  Binding (V): free-running
+fleets of three real Sync loops are recorded (every LMDB write transaction with its id, content reads, decoded
+blobs) and each instance's log is validated by TLC against FleetTrace.tla (the data-plane operators).
 """
-import proto
+import proto, fleet
 
 
 def run(c):
     proto.run_suite(c, 'C01')
+    # binding (V): free-running real fleets (three Sync loops with receivers, cleaners, random writers); every
+    # instance's transaction log must be a behaviour of FleetTrace.tla and the fleet must converge
+    fleet.validate(c, 'C01', c.tier)
     c.assumptions += ['tomb sweeper disabled (property text)', 'shadow mode: one shared monotone clock; real stamps are compared up to order-isomorphism',
                       'native mode: per instance and key the application uses strictly increasing timestamps (DESIGN.md s.7)',
                       'shadow configurations model shadowToMain as the code is (empty application values are dropped, known finding F3 of C11)']
